@@ -534,8 +534,92 @@ let gen_case (toks : string list) : string =
     (match ok with Some _ -> "accepted" | None -> "rejected")
   | _ -> failwith "bad gen case"
 
+(* ---------- runtime shim (Shim/*.v) ---------- *)
+let caps_of_bits (b : string) : caps =
+  let g i = b.[i] = '1' in
+  { c_nil = g 0; c_ptr = g 1; c_v2 = g 2; c_v1 = g 3; c_gogo_reg = g 4; c_sizer = g 5; c_marshaler = g 6; c_unmarshaler = g 7;
+    c_xxx_marshal = g 8; c_xxx_size = g 9; c_xxx_unmarshal = g 10; c_text = g 11; c_reset = g 12 }
+let mt_name = function TUnknown -> "unknown" | TGogo -> "gogo" | TGoogleV1 -> "googlev1" | TGoogle -> "google"
+let mtype_of = function "google" -> TGoogle | "gogo" -> TGogo | "googlev1" -> TGoogleV1 | _ -> TUnknown
+let dflavour_of = function "v2" -> DV2 | "v1" -> DGoogleV1 | "gogo" -> DGogo | _ -> DOther
+let shim_case (toks : string list) : string =
+  match toks with
+  | ["CAPS"; bits] ->
+    let c = caps_of_bits bits in
+    let okerr a = (match a with AErr0 -> "err" | ABadAssert -> "panic" | ADocPanic -> "panic" | _ -> "ok") in
+    String.concat " " [
+      mt_name (deduce c);
+      "marshal:" ^ okerr (marshal_action c);
+      "unmarshal:" ^ okerr (unmarshal_action c);
+      "size:" ^ (match size_action c with AZero -> "zero" | _ -> "pos");
+      "clone:" ^ (match clone_action deduce c with AZero -> "nil" | ABadAssert -> "panic" | _ -> "val");
+      "equal:" ^ (match equal_action deduce c c with AZero -> "false" | ABadAssert -> "panic" | _ -> "true");
+      "text:" ^ okerr (text_action deduce c);
+      "range:" ^ (match range_ext_action deduce c with ABadAssert -> "panic" | _ -> "done");
+      "reset:" ^ okerr (reset_action deduce c) ]
+  | ["RACE"; bits; g] ->
+    let c = caps_of_bits bits in
+    let n = int_of_string g in
+    (* all goroutines load (and miss) first, then all store, then one more load each *)
+    let ids = List.init n (fun i -> nat_of_int i) in
+    let sched = List.map (fun i -> TLoad i) ids @ List.map (fun i -> TStore i) ids @ List.map (fun i -> TLoad i) ids in
+    let s = crun c sched in
+    let names = List.sort_uniq compare (List.map (fun (_, t) -> mt_name t) s.results) in
+    String.concat "," names
+  | "EXT" :: rt :: ops ->
+    let rt = mtype_of rt in
+    let op_of t = (match split ':' t with
+      | ["set"; fl; n; v] -> XSet (dflavour_of fl, n_of_int (int_of_string n), z_of_hex v)
+      | ["get"; fl; n] -> XGet (dflavour_of fl, n_of_int (int_of_string n))
+      | ["has"; fl; n] -> XHas (dflavour_of fl, n_of_int (int_of_string n))
+      | ["clear"; fl; n] -> XClear (dflavour_of fl, n_of_int (int_of_string n))
+      | ["clearall"] -> XClearAll | ["range"] -> XRange
+      | ["number"; fl; n] -> XNumber (dflavour_of fl, n_of_int (int_of_string n))
+      | _ -> failwith ("bad ext op " ^ t)) in
+    let (obs, _) = ext_run rt [] (List.map op_of ops) in
+    String.concat " " (List.map (function
+      | ONone -> "none" | OErr -> "err" | OBool b -> "bool:" ^ string_of_bool b
+      | OVal None -> "val:none" | OVal (Some v) -> "val:" ^ hex_of_z v
+      | ONums l -> "nums:" ^ String.concat "," (List.sort compare (List.map dec_of_n l) |> List.map (fun x -> x) |> fun l -> List.sort (fun a b -> compare (int_of_string a) (int_of_string b)) l)
+      | ONum n -> "num:" ^ dec_of_n n | OPanicDoc -> "docpanic") obs)
+  | ("JM" | "JU") :: bits :: rest ->
+    let g i = bits.[i] = '1' in
+    let c = { jc_nil = g 0; jc_json = g 1; jc_v2 = g 2; jc_v1 = g 3; jc_gogo = g 4 } in
+    let codes (x : string) : n list = List.map (fun ch -> n_of_int (Char.code ch)) (List.of_seq (String.to_seq x)) in
+    let unhex_str (h : string) : n list = if h = "-" then [] else bytes_of_hex h in
+    let opts_of (t : string) : jopts =
+      if t = "-" then jdefault else
+      jbuild (List.map (fun kv -> match split '=' kv with
+        | ["indent"; h] -> JIndent (unhex_str h)
+        | ["enum"; b] -> JEnumNumbers (b = "1")
+        | ["zero"; b] -> JZero (b = "1")
+        | ["unknown"; b] -> JUnknown (b = "1")
+        | ["partial"; b] -> JPartial (b = "1")
+        | _ -> failwith ("bad json option " ^ kv)) (split ',' t)) in
+    ignore codes;
+    let hexs (l : n list) = hex_of_bytes l in
+    let b2s b = if b then "1" else "0" in
+    (match List.hd toks, rest with
+     | "JM", [o] ->
+       (match marshal_json c (opts_of o) with
+        | MNothing -> "nothing" | MOwn -> "own" | MUnsupported -> "unsupported"
+        | MV2 (i, e, z) -> "v2 indent=" ^ hexs i ^ " enum=" ^ b2s e ^ " zero=" ^ b2s z
+        | MV1 (i, e, z) -> "v1 indent=" ^ hexs i ^ " enum=" ^ b2s e ^ " zero=" ^ b2s z
+        | MGogo (i, e, z) -> "gogo indent=" ^ hexs i ^ " enum=" ^ b2s e ^ " zero=" ^ b2s z)
+     | "JU", [o; scenario] ->
+       (match unmarshal_json c (opts_of o), scenario with
+        | UNilError, _ -> "nilerror"
+        | UV2 (partial, unknown), "unknownkey" -> if unknown then "ok" else "err"
+        | (UV1 unknown | UGogo unknown), "unknownkey" -> if unknown then "ok" else "err"
+        | UV2 (partial, _), "missingrequired" -> if partial then "ok" else "err"
+        | (UV1 _ | UGogo _), "missingrequired" -> "err"
+        | UOwn, _ -> "own" | _, _ -> "unsupported")
+     | _ -> failwith "bad json case")
+  | _ -> failwith "bad shim case"
+
 let dispatch (line : string) : string =
   match split ' ' line with
+  | "S" :: rest -> shim_case rest
   | ["L10"; mode; _; _] ->
     (* C10, lazyproto half: may a string/bytes value handed out share memory with the input? *)
     if acc_aliases_input (mode = "fast") AString || acc_aliases_input (mode = "fast") ABytes then "unspecified" else "same"
